@@ -281,7 +281,7 @@ def shrink(case):
 
 def run(ctx):
     rng = ctx.rng
-    cases = [gen_case(rng, ctx.quick) for _ in range(ctx.n(25, 300))]
+    cases = [gen_case(rng, ctx.quick) for _ in range(ctx.n(16, 200))]
     cases += [gen_case(rng, ctx.quick, drivers=True) for _ in range(ctx.n(2, 12))]
     outs = ctx.model(DRIVER, [dict(op="wiener", R=c["R"], N=c["N"], d=c["d"], n=c["n"]) for c in cases])
     for c, m in zip(cases, outs):
